@@ -10,7 +10,8 @@ def plan(tier):
         "required_obligations": [
             "index_exhaustive_small", "nonpow2_alphabet", "nonpow2_top_rank_qgram",
             "pattern_offset_exceeds_text_position", "max_count_small", "text_shorter_than_q",
-            "pattern_shorter_than_q", "codes_full_word", "codes_sigma1", "codes_beyond_2p30",
+            "pattern_shorter_than_q", "codes_full_word", "codes_sigma1", "codes_beyond_2p30", "unary_alphabet", "unary_alphabet_q_above_64",
+            "exact_k_jump_chains_in_long_list",
             "pairs_exhaustive_small", "hash_side_seq1", "hash_side_seq2", "k_longer_than_a_sequence",
             "empty_match_list", "chain_step_continuation", "chain_step_jump", "expand_grew",
             "chains_on_expanded", "arbitrary_match_list", "grid_exhaustive_small", "nontrivial"],
@@ -19,7 +20,9 @@ def plan(tier):
                 "identical, planted (every diagonal, pattern offset > text position, a mismatch in the middle) and "
                 "too-short patterns; exhaustive texts<=4 (5) over alphabets of size 1,2,3 with all patterns<=3; "
                 "alphabets of size 1,2,3,4,5,7,8,20, q in 1..4, texts<=200, max_count in {none,1,2,3..6}; code runs "
-                "up to q*bits = 64. sparse: one run = one pair (x,y,k): find_kmer_matches and both prehashed "
+                "up to q*bits = 64; single-symbol alphabets (bits = 0) with q in {1,2,63,64,65,70,200}, max_count at / just "
+                "below the number of windows. sparse: also lists of 17..40 matches made of chains A, A+(k,k), A+2(k,k).. "
+                "without the diagonal steps between them, mixed with random matches; one run = one pair (x,y,k): find_kmer_matches and both prehashed "
                 "variants, lcskpp/sdpkpp/union on the true matches, expand on the matches and on a thinned sub-list, "
                 "chains on the expanded lists; all pairs over {a,b}<=3 (4), k<=3; random/related pairs<=60, k in "
                 "1..5; arbitrary sorted pair lists M<=40; nontrivial = lcskpp results with at least two matches",
